@@ -104,11 +104,41 @@ func c10Resume(ctx context.Context, w *c01World, image *vkStore, forkTip string,
 	// and from there it converges to the peer's best chain
 	k2.node.state.SetVersionReceived()
 	k2.node.state.MarkConnected()
-	w2 := &c01World{ctx: ctx, k: k2, tree: w.tree, heard: map[string]bool{}, headersOnly: w.headersOnly}
-	w2.peer = vkNewPeer(w.tree, forkTip)
-	w2.settle(6)
-	verifrt.Sig(when, "converge")
-	verifrt.Assert(w2.converged(), "C10.resume.converges-to-the-peers-best-chain")
+	// ... block by block, with a clean stop and restart after every block of the new branch: whatever
+	// the crash left behind above the resumed tip (a stale header file) must not come back either
+	k := k2
+	for _, upTo := range newChain {
+		if len(w.tree.chainTo(upTo)) <= k.node.blocks.LastHeight() {
+			continue // the peer's chain only ever gets longer than what the node holds
+		}
+		wk := &c01World{ctx: ctx, k: k, tree: w.tree, heard: map[string]bool{}, headersOnly: w.headersOnly}
+		wk.peer = vkNewPeer(w.tree, upTo)
+		wk.settle(6)
+		verifrt.Sig(when, "converge")
+		verifrt.Assert(wk.converged(), "C10.resume.converges-to-the-peers-best-chain")
+		if !wk.converged() {
+			return
+		}
+		k.node.blocks.Save(ctx)
+		k.node.txs.Save(ctx)
+		k.node.peers.Save(ctx)
+		kn, lerr := vkNewNode(ctx, k.store)
+		verifrt.Sig(when, "reload")
+		verifrt.Assert(lerr == nil, "C10.resume.clean-restart-later-loads")
+		if lerr != nil {
+			return
+		}
+		if w.headersOnly {
+			vkHeadersOnly(ctx, kn)
+		}
+		vkChainLinked(ctx, kn.node, when+" later")
+		want := w.tree.hashes[upTo]
+		verifrt.Sig(when, "reload-tip")
+		verifrt.Assert(*kn.node.blocks.LastHash() == want && kn.node.blocks.LastHeight() == len(w.tree.chainTo(upTo)), "C10.resume.clean-restart-later-holds-the-chain-it-saved")
+		kn.node.state.SetVersionReceived()
+		kn.node.state.MarkConnected()
+		k = kn
+	}
 }
 
 // VerifHarness_C10_crash: the process dies right after the c-th storage mutation.
